@@ -26,9 +26,12 @@ def hash_data_frame(d) -> str:
     ]
     cell_types = [
         [type(v).__name__ for v in d.iloc[:, j]]
+        if str(d.iloc[:, j].dtype) == "object"
+        else [type(v).__name__ for v in d.iloc[:, j].cat.categories]
         for j in range(d.shape[1])
         if str(d.iloc[:, j].dtype) in ("object", "category")
     ]  # by position: a query result may repeat a column name; a categorical column says "category" whatever it holds
+    # (its cells are its categories: their types are looked at, not every cell)
     type_str = hashlib.sha256(str((col_types, cell_types)).encode("utf-8")).hexdigest()
     return f"{d.shape}_{list(d.columns)}_{hash_str}_{type_str}"
 
